@@ -32,9 +32,9 @@ KindsXf == {"fail", "skip", "ki", "err", "xfail"}
 KindsTriple == {"ki", "err", "skip", "fail", "xfail"}
 Kinds4 == {"fail", "skip", "xfail", "ki"}
 KindsTwo == {"fail", "skip"}
-NamesMid == {Name("traceback", 0), Name("traceback", 1), Name("Failed expectation", 0)}
+NamesMid == {Name("traceback", 0), Name("traceback", 1), Name("Failed expectation", 0), Name("empty", 0)}
 Kinds8 == {"fail", "err", "skip", "xfail", "uxs", "ki", "exit", "custom"}
 KindsFew == {"fail", "skip", "xfail"}
 NamesSmall == {Name("foo", 0), Name("traceback", 1)}
-NamesAll == {Name("foo", 0), Name("traceback", 0), Name("traceback", 1), Name("Failed expectation", 0), Name("fxd", 0)}
+NamesAll == {Name("empty", 0), Name("foo", 0), Name("traceback", 0), Name("traceback", 1), Name("Failed expectation", 0), Name("fxd", 0)}
 =============================================================================
